@@ -199,7 +199,7 @@ def spec(tier, seed):
         fn = "h%d" % pi
         L = ["def %s(hv: int, give_locals: bool, same_dict: bool, k: int, x: int) -> bool:" % fn, '    """', "    post: _", '    """',
              "    return eval_ok(%d, _sk.box(hv, 0, %d), give_locals, same_dict, _sk.box(k, -1, %d), x)" % (
-                 pi, (len(PRIOR) - 1) if (tier == "thorough" or pi == 0) else 3, nsites[pi] - 1)]
+                 pi, (len(PRIOR) - 1) if (tier == "thorough" or pi == 0) else (3 if pi in (5, 6) else 1), nsites[pi] - 1)]
         obs.append(Ob(fn, "\n".join(L), sample="hy.eval(%s, globals[, locals]) with/without a prior hy entry, fault at each effect site or none" % (
             ["3 top-level forms", "try/finally + if", "import + setv hy2 + lfor", "defmacro + macro call", "malformed (if 1): compile-time error", "the program itself assigns hy",
              "the program itself deletes hy"][pi]), group="single"))
@@ -209,8 +209,12 @@ def spec(tier, seed):
     if tier == "thorough":
         obs.append(Ob(fn, "\n".join(L), sample="two hy.eval calls in sequence on one dict, each possibly failing at a symbolic site", group="sequence", timeout=3000.0))
     else:
-        L[-1] = "    return eval_twice_ok((0, 1, 5)[_sk.box(p1, 0, 2)], 4 if p2 % 2 else 0, _sk.box(hv, 0, 3), _sk.box(k1, -1, 2), _sk.box(k2, -1, 0), x)"
-        obs.append(Ob(fn, "\n".join(L), sample="two hy.eval calls in sequence on one dict (quick: programs {0,1,5} then {0, malformed}; prior hy in {absent, object, None, 0})", group="sequence", timeout=900.0))
+        for p2 in (0, 4):
+            L2 = list(L)
+            L2[0] = L2[0].replace("def hpair(", "def hpair%d(" % p2)
+            L2[-1] = "    return eval_twice_ok((0, 1, 5)[_sk.box(p1, 0, 2)], %d, _sk.box(hv, 0, 2), _sk.box(k1, -1, 2), _sk.box(k2, -1, 0), x)" % p2
+            obs.append(Ob("hpair%d" % p2, "\n".join(L2), sample="two hy.eval calls in sequence on one dict (quick: programs {0,1,5} then %s; prior hy in {absent, object, None})" % (
+                "program 0" if p2 == 0 else "the malformed program"), group="sequence", timeout=900.0))
     tw = "\n".join(["def twin0(hv: int, k: int, x: int) -> bool:", '    """', "    post: _", '    """', "    eval_ok(0, _sk.box(hv, 0, 2), False, False, _sk.box(k, -1, 2), x)", "    return False"])
     obs.append(Ob("twin0", tw, twin=True, group="twin"))
     return {
